@@ -517,6 +517,7 @@ func verifC13EscapeBytes(maxLen int) {
 func VerifC13EscapeBytes2() { verifC13EscapeBytes(2) }
 func VerifC13EscapeBytes3() { verifC13EscapeBytes(3) }
 func VerifC13EscapeBytes4() { verifC13EscapeBytes(4) }
+func VerifC13EscapeBytes6() { verifC13EscapeBytes(6) }
 
 // verifValidUTF8: well-formed UTF-8 (Unicode table 3-7),
 // written with comparisons only so that the solver sees it.
